@@ -34,8 +34,8 @@ META = dict(
     category=LEVEL,
     technique="exhaustive enumeration of theta in a finite grid^10 (+ axis points); invariants, round trip, independent "
               "closed-form reference and differential compile (wheel MjSpec and tree-built C library)",
-    text="All 3^10 = 59049 parameter vectors over {-2, 0, 1.5} (quick: 2^10 over {-1.5, 1}) plus 230 single- and "
-         "pair-axis excursions up to +-4 are pushed through pi_from_theta / pseudoinertia_from_pi / "
+    text="All 3^10 = 59049 parameter vectors over {-2, 0, 1.5} (quick: 2^10 over {-1.5, 1}) plus 112 (quick 73) single- "
+         "and pair-axis excursions up to +-4 (quick +-3) are pushed through pi_from_theta / pseudoinertia_from_pi / "
          "theta_from_pseudoinertia / apply_body_theta_inertia of the tree. Every vector is checked for positive mass, "
          "positive-definite pseudo-inertia, triangle inequalities, exact agreement with a closed form, round trip, and "
          "for compiled mass properties (binding compile and tree C library compile). The functions are smooth in theta, "
